@@ -37,6 +37,11 @@ type Obj struct {
 	lw    [2]uint64 // fingerprint of the last write access
 	rs    [2]uint64 // commutative sum of read fingerprints since the last write
 	Label string
+	// shared-site discovery: the first thread that touched the object and the sites it was touched
+	// from while still single-threaded
+	owner *thread
+	multi bool
+	sites []uintptr
 }
 
 type thread struct {
@@ -102,6 +107,10 @@ type Options struct {
 	StepCap   int   // max scheduling steps per execution
 	HorizonNs int64 // virtual time horizon: timers beyond it never fire
 	Trace     bool
+	// Delay: delay-bounded instead of preemption-bounded search - the default scheduler is
+	// deterministic (keep running, else lowest thread name) and every other thread choice costs one
+	// deviation, including switches at blocking points. Data choices stay free.
+	Delay bool
 	// ChooseRand: owned random draws that steer control flow become explorer choices when the
 	// harness installs a handler; nil => PRF.
 	RandInt func(n int, tag string) int
@@ -284,23 +293,147 @@ func (s *Sched) NowNs() int64   { return s.now }
 func (s *Sched) Opt() *Options  { return &s.opt }
 func (s *Sched) NumPoints() int { return len(s.res.Points) }
 
-func caller() string {
-	var pcs [24]uintptr
-	n := runtime.Callers(3, pcs[:])
-	frames := runtime.CallersFrames(pcs[:n])
-	for {
-		f, more := frames.Next()
-		if !strings.Contains(f.File, "/internal/vrt/") && !strings.Contains(f.File, "/internal/vnet/") && f.File != "" {
-			file := f.File
-			if i := strings.Index(file, "/internal/"); i >= 0 {
-				file = file[i+10:]
-			}
-			return fmt.Sprintf("%s:%d", file, f.Line)
+// Shared-site reduction. sharedKeys is the set of call sites (function+offset) known to operate on
+// objects touched by more than one thread. Operations at other sites are thread-local in every
+// execution explored so far and do not yield (they commute with everything). The set is frozen
+// while an exploration pass runs, so that choice lists replay identically; discoveries are
+// collected in pendingKeys and the explorer restarts the pass when there are any. An exploration
+// is complete when a whole pass finishes without a discovery (see Explorer.Explore).
+var sharedKeys = map[string]bool{}
+var pendingKeys = map[string]bool{}
+var pcYield = map[uintptr]bool{}
+var pcKey = map[uintptr]string{}
+var NoSiteReduction bool
+var pcInternal = map[uintptr]bool{}
+
+func keyOf(pc uintptr) string {
+	k, ok := pcKey[pc]
+	if !ok {
+		f := runtime.FuncForPC(pc - 1)
+		if f == nil {
+			k = fmt.Sprintf("pc%x", pc)
+		} else {
+			k = fmt.Sprintf("%s+%d", f.Name(), pc-f.Entry())
 		}
-		if !more {
-			return ""
+		pcKey[pc] = k
+	}
+	return k
+}
+
+func siteShared(pc uintptr) bool {
+	y, ok := pcYield[pc]
+	if !ok {
+		y = sharedKeys[keyOf(pc)]
+		pcYield[pc] = y
+	}
+	return y
+}
+
+func discover(pc uintptr) {
+	if !siteShared(pc) {
+		pendingKeys[keyOf(pc)] = true
+	}
+}
+
+// MergePendingSites folds discoveries into the frozen set; reports whether anything was new.
+func MergePendingSites() bool {
+	if len(pendingKeys) == 0 {
+		return false
+	}
+	for k := range pendingKeys {
+		sharedKeys[k] = true
+	}
+	pendingKeys = map[string]bool{}
+	pcYield = map[uintptr]bool{}
+	return true
+}
+
+func SharedSiteList() []string {
+	var l []string
+	for k := range sharedKeys {
+		l = append(l, k)
+	}
+	sort.Strings(l)
+	return l
+}
+
+func SetSharedSites(l []string) {
+	sharedKeys = map[string]bool{}
+	for _, k := range l {
+		sharedKeys[k] = true
+	}
+	pendingKeys = map[string]bool{}
+	pcYield = map[uintptr]bool{}
+}
+
+func sitePC() uintptr {
+	var pcs [10]uintptr
+	n := runtime.Callers(3, pcs[:])
+	for i := 0; i < n; i++ {
+		pc := pcs[i]
+		in, ok := pcInternal[pc]
+		if !ok {
+			f := runtime.FuncForPC(pc - 1)
+			name := ""
+			if f != nil {
+				name = f.Name()
+			}
+			in = strings.Contains(name, "/internal/vrt") || strings.Contains(name, "/internal/vnet.")
+			pcInternal[pc] = in
+		}
+		if !in {
+			return pc
 		}
 	}
+	return 1
+}
+
+func siteString(pc uintptr) string {
+	f := runtime.FuncForPC(pc - 1)
+	if f == nil {
+		return "?"
+	}
+	file, line := f.FileLine(pc - 1)
+	if i := strings.Index(file, "/internal/"); i >= 0 {
+		file = file[i+10:]
+	}
+	name := f.Name()
+	if i := strings.LastIndex(name, "/"); i >= 0 {
+		name = name[i+1:]
+	}
+	return fmt.Sprintf("%s (%s:%d)", name, file, line)
+}
+
+// touch maintains the shared-site discovery; returns true when the operation must be a yield point.
+func (s *Sched) touch(t *thread, o *Obj, pc uintptr) bool {
+	if o == nil {
+		return siteShared(pc)
+	}
+	if o.owner == nil {
+		o.owner = t
+	}
+	if !o.multi && o.owner != t {
+		o.multi = true
+		for _, p := range o.sites {
+			discover(p)
+		}
+		o.sites = nil
+	}
+	if o.multi {
+		discover(pc)
+	} else {
+		seen := false
+		for _, p := range o.sites {
+			if p == pc {
+				seen = true
+				break
+			}
+		}
+		if !seen {
+			o.sites = append(o.sites, pc)
+		}
+	}
+	return siteShared(pc)
 }
 
 // Point is a scheduling point for operation kind on o. en (may be nil) tells whether the operation
@@ -320,16 +453,28 @@ func Point(o *Obj, write bool, kind string, en func() bool) bool {
 		}
 		return false
 	}
-	t.enabled, t.pKind, t.pObj = en, kind, o
-	s.schedule(t)
-	t.enabled = nil
+	pc := sitePC()
+	yield := s.touch(t, o, pc) || NoSiteReduction
+	if !yield && en != nil && !en() {
+		// blocked on something nobody else was seen touching (a timer, a deadline): must wait
+		yield = true
+	}
+	if yield {
+		t.enabled, t.pKind, t.pObj = en, kind, o
+		s.schedule(t)
+		t.enabled = nil
+	}
 	s.event(t, o, write, kind)
 	if s.opt.Trace {
 		ol := ""
 		if o != nil {
 			ol = o.Label
 		}
-		s.res.Trace = append(s.res.Trace, TraceEv{Thread: t.label, Op: kind, Obj: ol, Site: caller(), VT: s.now / 1e6})
+		k := kind
+		if !yield {
+			k = "(" + kind + ")"
+		}
+		s.res.Trace = append(s.res.Trace, TraceEv{Thread: t.label, Op: k, Obj: ol, Site: siteString(pc), VT: s.now / 1e6})
 	}
 	return true
 }
@@ -425,7 +570,7 @@ func (s *Sched) schedule(t *thread) {
 		idx := 0
 		if len(cs) > 1 {
 			ac := 0
-			if curEn {
+			if curEn || s.opt.Delay {
 				ac = 1
 			}
 			idx = s.decidePoint(len(cs), ac, false)
@@ -624,6 +769,7 @@ func Run(opt Options, decide Decider, main func()) Result {
 	<-s.finished
 	for i := 0; i < len(s.threads); i++ {
 		t := s.threads[i]
+		s.cur = t // shims consult s.cur.abort while t unwinds
 		select {
 		case t.wake <- struct{}{}:
 		default:
